@@ -25,7 +25,8 @@ Ev == Log[l]
 Is(e) == l <= NLog /\ Ev.e = e /\ l' = l + 1
 S(seq) == SeqToSet(seq)
 
-(* which case split a failing case sits on (for the violation key) *)
+(* which case split a failing case sits on (for the violation key); in a float-precision    *)
+(* space a broken triangle inequality is keyed "float" whatever the inputs look like          *)
 TriTag(f) == IF "seam" \in f THEN "seam" ELSE IF "near" \in f THEN "near"
              ELSE IF "antipodal" \in f THEN "antipodal" ELSE IF "bound" \in f THEN "bound" ELSE "generic"
 PairTag(f) == IF "near" \in f THEN "near" ELSE IF "bound" \in f THEN "bound"
@@ -50,7 +51,7 @@ TripleFails(c, e) ==
                    THEN {<<"symmetry", "">>} ELSE {})
              \cup (IF c.metric /\ ~(Triangle(e.dac, e.dab, e.dbc, tol) /\ Triangle(e.dab, e.dac, e.dcb, tol)
                                     /\ Triangle(e.dbc, e.dba, e.dac, tol))
-                   THEN {<<"triangle", TriTag(all)>>} ELSE {})
+                   THEN {<<"triangle", IF c.prec = "float" THEN "float" ELSE TriTag(all)>>} ELSE {})
              \cup (IF c.extChecked /\ \E i \in 1..Len(ds) : ~WithinExtent(ds[i], c.ext, tol)
                    THEN {<<"extent", "">>} ELSE {})
              \cup (IF c.plain /\ ~WeightedSum(e.dab, e.parts, c.w, 8, tol) THEN {<<"compound-sum", "">>} ELSE {})
